@@ -2,7 +2,7 @@
 (* C19 generator / design check: every tree of at most MaxFiles non-directory entries drawn from a
    fixed universe (nesting, hidden files and directories, unknown extensions, same-name files of
    different types, symbolic links to files and to a directory, a hard link, stale *.bak files)
-   crossed with every invocation shape.  Each pair is one initial state.  TLC checks that Plan is
+   crossed with every invocation shape (one initial state per shape, one successor per tree).  TLC checks that Plan is
    total and that the documented semantics has the design properties below on ALL of them, and
    prints the identifiers of those scenarios whose outcome is fully determined; the check then runs
    a seeded sample of these against the real binary (C19Plan renders them, C19Trace judges them).   *)
